@@ -27,8 +27,18 @@
    (C05/C06/C09), CONNECT/DISCONNECT/CONNECT_ERROR packets (the loop reports them as
    `Err OtherError` = "not a message of this pipe"), and engine.io's containment of exceptions
    (a `Res` error aborts the run here). *)
-From VT Require Export Codec.Packet Codec.MsgPack Server.Server.
+From VT Require Export Codec.Packet Codec.MsgPack.
+From VT Require Server.Server.
 Open Scope N_scope.
+
+(* the server-side helpers, by their qualified names (Server.v is not imported wholesale: it is a
+   large shared file whose other names must not shadow the ones of this package) *)
+Notation pack := VT.Server.Server.pack.
+Notation split_event := VT.Server.Server.split_event.
+Notation star_args := VT.Server.Server.star_args.
+Notation pieces_of := VT.Server.Server.pieces_of.
+Notation type_is := VT.Server.Server.type_is.
+Notation ns_or_default := VT.Server.Server.ns_or_default.
 
 Inductive direction := C2S | S2C.
 Inductive serializer := SerDefault | SerMsgpack.
